@@ -14,14 +14,14 @@ ENGINES = [
     {
         "name": "E3-choice-tape",
         "path": "mc/tape.py",
-        "serves_properties": ["C02", "C03"],
+        "serves_properties": ["C02", "C03", "C18", "C19"],
         "kind_free_text": "stateless depth-first exploration of environment answers (which model / which reply order / which "
         "PRNG draw) with prefix replay and divergence detection",
     },
     {
         "name": "E2-bfs",
         "path": "props/c01.py",
-        "serves_properties": ["C01"],
+        "serves_properties": ["C01", "C18", "C19", "C20"],
         "kind_free_text": "explicit-state breadth-first search over event histories replayed on fresh real objects, canonical-state "
         "dedup, invariant evaluated on every transition",
     },
@@ -188,6 +188,33 @@ CHECKS = [
         "text": "ALL strings up to length 4 (5) over a 16-symbol class-representative alphabet for 21 codecs/terms under every declared (h,w) in {0..3}^2, a URL-level product of scheme/host/path/name/dimension/body classes through every decoding API, and one-room/striped boards up to 64x64: outcome must be None, ValueError or a problem of the declared dimensions that re-encodes stably.",
         "design_ref": "DESIGN.md section 2, C17",
         "note": "Character classes instead of full Unicode; bodies longer than the bound are covered by the argument that every combinator reads left to right with at most 4 characters of lookahead.",
+    },
+    {
+        "id": "C18",
+        "engine": "E2-bfs",
+        "category": "model_checking",
+        "technique": "explicit-state BFS over the real transition function with scripted PRNG seeds (all seed pairs) and canonical-state dedup",
+        "text": "Explicit-state BFS to the fixpoint over room partitions of every board with <=6 (9) cells under every bound configuration over {None,1,2,3,hw}; transitions are the updates proposed by the real candidates() with the split seeds swept over all pairs, applied by the real copy_with_update; initial() explored with a choice tape; invariant (partition, connectivity, bounds) on every state, immutability on every transition.",
+        "design_ref": "DESIGN.md section 2, C18",
+        "note": "Canonical state = sorted blocks (each state expanded in two presentations); initial() dead ends (random.choice on no candidates) are not judged.",
+    },
+    {
+        "id": "C19",
+        "engine": "E2-bfs+E3-choice-tape",
+        "category": "model_checking",
+        "technique": "explicit-state BFS + stateless choice-tape exploration of PRNG draws and callback answers; exact enumeration of the raw PRNG domain at reduced size",
+        "text": "(A) BFS over problems reachable through the real neighbour generator for 30+ builder patterns with the raw PRNG scripted so that every pair of consecutive draws takes every value pair; (B) generate_problem with solver answer, uniqueness, pretest and PRNG on a choice tape (bounded deviations); (C) exact distribution of randint/choice/shuffle/random over every raw value at reduced domain sizes; (D) same-seed reproducibility across global random states and callbacks.",
+        "design_ref": "DESIGN.md section 2, C19",
+        "note": "Uniformity is shown for the raw-draw -> result mapping at D in {8,12,16,60}; XorShift's own distribution is outside the property; deviation bound 3 (4) in (B).",
+    },
+    {
+        "id": "C20",
+        "engine": "E1-enumerator+E2-bfs",
+        "category": "model_checking",
+        "technique": "exhaustive enumeration of configurations + all event histories to depth 3 with spies, decision-table reference model",
+        "text": "All 32000 combinations of the four environment variables (incl. malformed values) x importable-module subsets against a decision-table model (+40 in fresh interpreters), and all histories of <=3 events over 47 configuration/graph-call/solve-call events with spies on every backend entry point.",
+        "design_ref": "DESIGN.md section 2, C20",
+        "note": "Optional modules simulated through sys.modules; the decision table is my transcription of the property.",
     },
     {
         "id": "C13",
